@@ -386,6 +386,7 @@ def main(argv=None):
     ap.add_argument("--replay", default=None)
     ap.add_argument("--seed", type=int, default=None)
     ap.add_argument("--shards", type=int, default=None)
+    ap.add_argument("--only", default=None, help="workload:case (development aid; no evidence is written)")
     a = ap.parse_args(argv)
     pid = a.pid.upper()
     seed = a.seed if a.seed is not None else int(os.environ.get("VERIF_SEED", "0") or 0)
@@ -403,7 +404,7 @@ def main(argv=None):
         sys.path.insert(1, REPO)
     mod = importlib.import_module("props." + pid.lower())
 
-    only = None
+    only = a.only
     tier = a.tier
     if a.replay:
         w = json.load(open(a.replay))
@@ -464,7 +465,7 @@ def main(argv=None):
             inconclusive.append("only %d distinct non-trivial cases" % nontriv)
 
     wall = time.time() - t0
-    if not a.replay:
+    if not a.replay and not a.only:
         evidence.write(pid, tier, seed, mod, m, wall, known, new, inconclusive)
     print("%s tier=%s seed=%d shards=%d evaluations=%d distinct_nontrivial=%d violations=%d known=%d wall=%.1fs" % (
         pid, tier, seed, nshards, m["evaluations"], nontriv, len(new), len(known), wall))
